@@ -5,6 +5,7 @@ import (
 	"fmt"
 	"go/ast"
 	"go/types"
+	"math"
 	"reflect"
 	"sort"
 	"strconv"
@@ -267,9 +268,9 @@ func (d *Dumper) ValueLit(in any, optFns ...ValueLitOptFn) string {
 	case reflect.Bool:
 		return strconv.FormatBool(rv.Bool())
 	case reflect.Float32:
-		return strconv.FormatFloat(rv.Float(), 'f', -1, 32)
+		return formatFloat(rv.Float(), 32)
 	case reflect.Float64:
-		return strconv.FormatFloat(rv.Float(), 'f', -1, 64)
+		return formatFloat(rv.Float(), 64)
 	case reflect.String:
 		return strconv.Quote(rv.String())
 	case reflect.Interface:
@@ -282,4 +283,14 @@ func (d *Dumper) ValueLit(in any, optFns ...ValueLitOptFn) string {
 	default:
 		panic(fmt.Errorf("%s is an unsupported type", tpe.String()))
 	}
+}
+
+// formatFloat prints f as a Go literal. Large magnitudes are written with an exponent: a long run
+// of digits without a decimal point is an integer literal, and the compiler limits the size of
+// integer constants.
+func formatFloat(f float64, bitSize int) string {
+	if math.Abs(f) >= 1e21 {
+		return strconv.FormatFloat(f, 'g', -1, bitSize)
+	}
+	return strconv.FormatFloat(f, 'f', -1, bitSize)
 }
